@@ -138,6 +138,13 @@ def run_stack(li, idxs, acc, judged_prefixes):
             acc.raised["RecursionError"] += 1
             return
         except Exception as e:
+            if canon(cur) != snap:
+                acc.violation(
+                    {"oracle": "stage_input_unchanged", "middleware": label.split("(")[0], "path": "stage raised"},
+                    {"case": {"library": li, "stack": [POOL[x][0] for x in idxs[: depth + 1]], "stack_idx": list(idxs[: depth + 1])}, "observed": f"input changed although the stage raised {type(e).__name__}", "expected": "equal to its snapshot"},
+                    size=len(idxs) * 100 + li,
+                )
+                return
             # inconclusive only if the failure is inherent to (middleware, data): the same middleware in in-place mode,
             # which copies nothing, must fail as well on an equal fresh library
             if depth == 0 and not label.startswith("SortBlocks"):
